@@ -67,7 +67,7 @@ CONSTANTS DW, DH,        \* die (lattice units); its origin is (0,0) as in FRAME
           BranchSizes,   \* set of <<length along the trunk side, depth away from it>>
           BranchOffs,    \* offsets of a branch from the low end of the side (99 = flush with the high end)
           Kinds,         \* subset of {"soft", "hard", "fixed"}
-          Slacks,        \* soft modules: area of the given rectangles minus the required area
+          Slacks,        \* soft modules: area of the given rectangles minus the required area (negative: drawn too small)
           MaxMods, MaxBr, MaxRects,
           Deltas,        \* translations <<dx,dy>> of a whole module
           Slides,        \* translations <<dx,dy>> of a single branch, or of the trunk alone
@@ -347,6 +347,9 @@ TrunkSizes6 == {<<6, 6>>}
 BranchSizesL == {<<1, 1>>, <<4, 2>>}
 \* very elongated dies (tau = 0.01 * min(W, H) / n, not max): two 2x2 modules next to each other
 TrunkSizes2 == {<<2, 2>>}
+\* drawn versus declared area of a soft module: drawn with slack (+2) and with a deficit (-1, -2: the given
+\* configuration itself violates exactly `area`; configurations between the two values must be refused)
+SlacksN == {-2, -1, 2}
 \* hard / fixed modules given beyond the ratio limit 2: a 6x2 trunk, a 3x1 branch
 TrunkSizesX == {<<6, 2>>, <<4, 4>>}
 BranchSizesX == {<<3, 1>>, <<2, 1>>}
@@ -498,10 +501,13 @@ Spec == Init /\ [][Next]_vars
 InvShape == Len(net) > 0 => NetOK(net) /\ CfgOK(net, cfg)
 \* PlaceModule / Attach build only legal floorplans: the input configuration of the netlist is legal,
 \* and so is every moved configuration
-\* (with ANYRATIO: or it violates exactly `ratio`, through a hard / fixed rectangle given beyond the limit)
+\* (or it violates exactly `ratio` through a hard / fixed rectangle given beyond the limit (ANYRATIO), or exactly
+\* `area` through a soft module drawn below its declared area (negative slack))
+Deficit == \E m \in Mods(net) : net[m].slack < 0
 InvBuiltLegal == (Len(net) > 0 /\ pc \in {"build", "moved", "emitted"}) =>
                     \/ Legal(World, net, cfg)
                     \/ (ANYRATIO /\ pc # "moved" /\ FalseClauses(World, net, cfg) = {"ratio"})
+                    \/ (Deficit /\ pc # "moved" /\ FalseClauses(World, net, cfg) = {"area"})
 \* THE PROPERTY, at design level: the equation system is met <=> the configuration is legal
 InvSystemExact == Len(net) > 0 => (AllMet(World, net, cfg) <=> Legal(World, net, cfg))
 \* finer: when a single clause is false, exactly the responsible group has an unmet equation
